@@ -36,7 +36,10 @@ CORRESPONDENCE = ("Drivers/C09.lean (Idp.create; Sp.process ∘ Idp.toSp) vs Ser
                   "independent XML reader, and Saml2Client.parse_authn_request_response on that very message")
 RULE = ("every public entry point x complete sign_response/sign_assertion argument matrix x (a)symmetric configurations "
         "(162 cells) + all 81 pairs of configuration forms of the two boolean options (324 cases) + complete product of create_authn_response's shaping arguments (22 farg trees x 7 authn dictionaries x "
-        "session_not_on_or_after x 3 status x name_id given or not = 1848 cells) + random IdP configurations (sign_response/sign_assertion/algorithms/policy per requester, registration authority, "
+        "session_not_on_or_after x 3 status x name_id given or not = 1848 cells) + the PEFIM profile and the error Responses, complete "
+        "(pefim x requester publishes an encryption certificate x requester requires a missing attribute x best_effort x sign_* x 9 farg "
+        "trees; unreadable identifier store x name_id given x entry point x certificate x signing by argument/configuration = 936 cells) "
+        "+ random IdP configurations (sign_response/sign_assertion/algorithms/policy per requester, registration authority, "
         "default and \"\" entries/domain) x arguments (requester, binding, NameIDPolicy, stored identifiers, explicit NameID, "
         "authn dictionary, sign_* and algorithm arguments, session_not_on_or_after, release_policy, clock) x receiving SP "
         "(signature options, allow_unsolicited, skew, clock offset at the window boundaries, outstanding set, trusted or "
@@ -54,7 +57,12 @@ TRUSTED = [
     "spdefaults.py (the SP's attribute_defaults, for options a receiving SP leaves unset)",
 ]
 ASSUMPTIONS = [
-    "encrypt_assertion unset (the encryption branch of Entity._response is C16); no pefim",
+    "encrypt_assertion unset and no encrypt_cert_* arguments (part-C of Entity._response and the certificate sources are C16); pefim IS "
+    "generated: the advice assertion is read in clear, or opened by the reader with the requester's committed decryption key in the "
+    "stand-in's encoding; every receiving SP holds that key; algorithms outside the allow-lists are not combined with pefim "
+    "(part-B signs without the allow-list test)",
+    "the identifier store either works or raises OSError on every read (UnavailableStore); 'a requester requires an attribute nobody "
+    "has' is ONE RequestedAttribute isRequired=true outside the identity pool (requirements that CAN be met change what is released: C10)",
     "the optional arguments issuer= and authn_statement= are not passed (they replace the fields the property talks about); "
     "farg= trees and status= ARE generated: complete product of the shaping arguments plus random partial trees; the model gets "
     "the abstract tree (what is preset on the paths the code reads), the code one concrete rendering of it; a preset Method is "
@@ -143,11 +151,20 @@ def setup():
 # ------------------------------------------------------------------ federation / instances
 
 
-def sp_entity(name):
+# an attribute of the bundled maps that no generated identity carries: a requester whose metadata REQUIRES it makes
+# Policy.restrict raise MissingValue (setup_assertion's except branch)
+UNMET_ATTR = {"name": "urn:oid:1.3.6.1.4.1.5923.1.1.1.2", "friendly_name": "eduPersonNickname", "required": True,
+              "name_format": "urn:oasis:names:tc:SAML:2.0:attrname-format:uri"}
+ENC_KEY = "sp_enc1"  # the key pair S.sp_config gives every SP as encryption_keypairs
+
+
+def sp_entity(name, enc=False, unmet=False):
     e = SPS[name]
     ent = {"entity_id": e["entity_id"],
-           "spsso": {"keys": [("signing", e["key"])],
+           "spsso": {"keys": [("signing", e["key"])] + ([("encryption", ENC_KEY)] if enc else []),
                      "acs": [(S.BINDING_POST, e["acs"]["post"], 0), (S.BINDING_REDIRECT, e["acs"]["redirect"], 1)]}}
+    if unmet:
+        ent["spsso"]["attr_cs"] = [[dict(UNMET_ATTR)]]
     if e.get("ra"):
         ent["entity_ext"] = ('<mdrpi:RegistrationInfo xmlns:mdrpi="urn:oasis:names:tc:SAML:metadata:rpi" '
                              'registrationAuthority="%s"/>' % S.xesc(e["ra"]))
@@ -184,7 +201,9 @@ def idp_for(cfg):
     for k in ("sign_response", "sign_assertion", "domain", "signing_algorithm", "digest_algorithm"):
         if cfg.get(k) is not None:
             idp[k] = cfg[k]
-    conf = S.idp_config(sp_entities=[sp_entity(n) for n in sorted(SPS)], idp=idp)
+    enc, unmet = cfg.get("enc_sps") or [], cfg.get("unmet_sps") or []
+    conf = S.idp_config(sp_entities=[sp_entity(n, SPS[n]["entity_id"] in enc, SPS[n]["entity_id"] in unmet)
+                                     for n in sorted(SPS)], idp=idp)
     conf["entityid"] = cfg["entity_id"]
     srv = S.make_idp(conf)
     if len(_state["idp"]) > 48:
@@ -353,7 +372,10 @@ def gen_idp_cfg(rng):
             "digest_algorithm": rng.choice(DIGEST_ALGS + [""]) if rng.random() < 0.38 else None,
             "policy": gen_policy(rng),
             "domain": rng.choice(["verif.example", "mail.idp.example"]) if rng.random() < 0.6 else None,
-            "ras": RAS}
+            "ras": RAS,
+            # the requesters' metadata: who publishes an encryption certificate, who requires an attribute nobody has
+            "enc_sps": sorted(SPS[n]["entity_id"] for n in SPS if rng.random() < 0.5),
+            "unmet_sps": sorted(SPS[n]["entity_id"] for n in SPS if rng.random() < 0.2)}
 
 
 def gen_nameid(rng, k, requester_id):
@@ -516,6 +538,9 @@ def gen_args(rng, cfg, k):
          "attrs": gen_identity(rng)}
     a["farg"] = gen_farg(rng, a) if rng.random() < 0.25 else None
     a["status"] = gen_status(rng) if rng.random() < 0.06 else None
+    a["pefim"] = rng.random() < 0.15
+    a["best_effort"] = opt_bool(rng, 0.6)
+    a["store_fails"] = rng.random() < 0.04      # the identifier database raises OSError when read
     if rng.random() < 0.1:
         a["release_policy"] = {"policy": gen_policy(rng)}
     if rng.random() < 0.05:
@@ -528,7 +553,7 @@ def gen_args(rng, cfg, k):
         a["stored"] = stored[:1] + [{"format": NF_PERSISTENT, "spnq": a["nip"]["spnq"] or rid,
                                      "nq": rng.choice([S.IDP_ID, S.IDP_ID, S.IDP_ID, None]), "text": "stored-persistent"}]
     # algorithms outside the allow-lists: only together with a demanded Response signature
-    if resolved(a["sign_response"], cfg["sign_response"]) and rng.random() < 0.06:
+    if resolved(a["sign_response"], cfg["sign_response"]) and not a["pefim"] and rng.random() < 0.06:
         if rng.random() < 0.5:
             a["sign_alg"] = rng.choice(BAD_SIG_ALGS)
         else:
@@ -613,6 +638,7 @@ def gen_cases(rng, tier):
             yield {"entry": entry, "idp": cfg, "args": a, "sp": side}
     yield from gen_product(rng)
     yield from gen_matrix(rng)
+    yield from gen_profile(rng)
 
 
 def bare_statement(authn):
@@ -686,6 +712,65 @@ def gen_matrix(rng):
             yield case("authn_response", (f1, f2), None, rng.choice([True, False]))
 
 
+def gen_profile(rng):
+    """the PEFIM profile and the error-Response paths, enumerated completely (both tiers):
+    pefim x requester publishes an encryption certificate x requester requires an attribute nobody has x best_effort
+    (absent/True/False) x sign_response x sign_assertion x 6 farg trees x identifier store readable or not (with and
+    without name_id=) x entry point; the receiving SP is the requester, inside the window, asking for no signature."""
+    i = 0
+    base = {"destination": SPS["sp"]["acs"]["post"], "sp_entity_id": S.SP_ID, "requester": "sp", "binding": "post",
+            "nip": None, "userid": "user-1", "sign_alg": None, "digest_alg": None, "stored": [], "now": S.NOW0 + 3,
+            "authn": {"class_ref": CLASS_REFS[1], "authn_auth": S.IDP_ID}, "session_nooa": None, "status": None,
+            "attrs": [["givenName", ["Anna"]], ["mail", ["anna@example.org", "a&b <c>"]]]}
+
+    def case(entry, enc, unmet, a_over, fabs, noise):
+        nonlocal i
+        i += 1
+        cfg = dict(PRODUCT_CFG, enc_sps=[S.SP_ID] if enc else [], unmet_sps=[S.SP_ID] if unmet else [])
+        a = dict(copy.deepcopy(base), in_response_to="id-pf-%d" % i, name_id=None, pefim=False, best_effort=None,
+                 store_fails=False, sign_response=None, sign_assertion=None)
+        a.update(a_over)
+        if fabs is None:
+            a["farg"] = None
+        else:
+            f = dict(fabs)
+            if f.get("irt") == "SELF":
+                f["irt"] = a["in_response_to"]
+            a["farg"] = with_tree(f, noise)
+        side = None
+        if entry != "ecp":
+            side = {"entity": "sp", "binding": "post", "want_resp": False, "want_assert": None, "want_either": None,
+                    "allow_unsolicited": None, "skew": None, "trusts": True, "now": S.NOW0 + 3 + (i % 4),
+                    "outstanding": [[a["in_response_to"], "/came/from/" + a["in_response_to"]]],
+                    "entity_id": S.SP_ID, "return_addrs": [SPS["sp"]["acs"]["post"]]}
+        return {"entry": entry, "idp": cfg, "args": a, "sp": side}
+
+    fargs = [(None, 0), ({"empty": True}, 0), (farg_abstract(), 2), (farg_abstract(address="192.0.2.7"), 0),
+             (farg_abstract(method=SCM_BEARER, irt="SELF"), 3), (farg_abstract(recipient=SPS["sp"]["acs"]["redirect"]), 0),
+             (farg_abstract(method=SCM_SV), 0), (farg_abstract(method=SCM_HOK), 0), ({"empty": False, "malformed": True}, 1)]
+    for pefim in (True, False):
+        for enc in (False, True):
+            for unmet in (False, True):
+                for be in (None, True, False):
+                    for sr in (None, True):
+                        for sa in (None, True, False):
+                            for fabs, noise in (fargs if pefim else fargs[:2]):
+                                yield case("authn_response", enc, unmet,
+                                           {"pefim": pefim, "best_effort": be, "sign_response": sr, "sign_assertion": sa},
+                                           fabs, noise)
+    given = {"format": NF_PERSISTENT, "spnq": S.SP_ID, "nq": S.IDP_ID, "text": "given-subject"}
+    for entry in ENTRIES:
+        for enc in (False, True):
+            for pefim in (False, True):
+                for name_id in (None, given):
+                    for sr in (None, True, False):
+                        for cfg_sr in (None, True):
+                            c = case(entry, enc, False, {"pefim": pefim, "store_fails": True, "name_id": copy.deepcopy(name_id),
+                                                         "sign_response": sr}, None, 0)
+                            c["idp"] = dict(c["idp"], sign_response=cfg_sr)
+                            yield c
+
+
 PRODUCT_AUTHN = [None, {"class_ref": CLASS_REFS[0]}, {"class_ref": CLASS_REFS[1], "authn_auth": S.IDP_ID},
                  {"authn_auth": S.IDP_ID}, {"decl": True}, {"decl": True, "authn_auth": S.IDP_ID},
                  {"decl": True, "class_ref": CLASS_REFS[2]}]
@@ -748,6 +833,54 @@ def _text(el):
     return el.text if el is not None and el.text is not None else None
 
 
+XENC = "http://www.w3.org/2001/04/xmlenc#"
+
+
+def open_encrypted(enc_el):
+    """EncryptedAssertion -> the Assertion element inside, opened with the requester's committed decryption key in the
+    stand-in's encoding (RSA-OAEP key transport, AES-GCM payload); nothing of saml2.  None = cannot be opened."""
+    from cryptography.hazmat.primitives import hashes, serialization
+    from cryptography.hazmat.primitives.asymmetric import padding
+    from cryptography.hazmat.primitives.ciphers.aead import AESGCM
+
+    ed = enc_el.find("{%s}EncryptedData" % XENC)
+    if ed is None:
+        return None
+    ek = next((n for n in ed.iter("{%s}EncryptedKey" % XENC)), None)
+    if ek is None:
+        return None
+    ek_cv = next((n for n in ek.iter("{%s}CipherValue" % XENC)), None)
+    data_cv = next((n for n in ed.iter("{%s}CipherValue" % XENC) if n is not ek_cv), None)
+    if ek_cv is None or data_cv is None:
+        return None
+    try:
+        key = serialization.load_pem_private_key(open(S.key_path(ENC_KEY), "rb").read(), None)
+        session = key.decrypt(base64.b64decode(ek_cv.text or ""),
+                              padding.OAEP(mgf=padding.MGF1(hashes.SHA1()), algorithm=hashes.SHA1(), label=None))
+        blob = base64.b64decode(data_cv.text or "")
+        return ET.fromstring(AESGCM(session).decrypt(blob[:12], blob[12:], b"standin"))
+    except Exception:
+        return None
+
+
+def read_advice(a):
+    """the assertions inside <Advice>: in clear, or encrypted to the requester (then opened with its key)"""
+    adv = a.find("{%s}Advice" % SAML)
+    out = []
+    for x in (list(adv) if adv is not None else []):
+        if x.tag == "{%s}Assertion" % SAML:
+            out.append(dict(read_assertion(x), encrypted=False))
+        elif x.tag == "{%s}EncryptedAssertion" % SAML:
+            inner = open_encrypted(x)
+            if inner is None or inner.tag != "{%s}Assertion" % SAML:
+                out.append({"encrypted": True, "opaque": True})
+            else:
+                out.append(dict(read_assertion(inner), encrypted=True))
+        else:
+            out.append({"encrypted": False, "opaque": True, "tag": x.tag})
+    return out
+
+
 def read_assertion(a):
     nid = a.find("{%s}Subject/{%s}NameID" % (SAML, SAML))
     confs = []
@@ -783,7 +916,7 @@ def read_assertion(a):
             "confs": confs,
             "cond_nb": _t(cond.get("NotBefore")) if cond is not None else None,
             "cond_nooa": _t(cond.get("NotOnOrAfter")) if cond is not None else None,
-            "audiences": auds, "authn": authn, "attrs": attrs}
+            "audiences": auds, "authn": authn, "attrs": attrs, "advice": read_advice(a)}
 
 
 def read_response(xml):
@@ -884,6 +1017,10 @@ def run_impl(case):
         st = a["status"]
         inner = samlp.StatusCode(value=st["second"]) if st.get("second") else None
         kw["status"] = samlp.Status(status_code=samlp.StatusCode(value=st["top"], status_code=inner))
+    if a.get("pefim"):
+        kw["pefim"] = True
+    if a.get("best_effort") is not None:
+        kw["best_effort"] = a["best_effort"]
     authn = copy.deepcopy(a["authn"])
     if authn and authn.get("decl"):
         from saml2 import saml
@@ -893,6 +1030,35 @@ def run_impl(case):
         del authn["decl"]
     identity = {n: list(vs) for n, vs in a["attrs"]}
     entry = case.get("entry", "authn_response")
+    good_db = idp.ident.db
+    if a.get("store_fails"):
+        idp.ident.db = UnavailableStore()
+    try:
+        resp = _call_idp(idp, entry, identity, rargs, pnip, a, authn, kw)
+    finally:
+        idp.ident.db = good_db
+    if isinstance(resp, dict):
+        return resp
+    return _observe(case, resp)
+
+
+class UnavailableStore(dict):
+    """an identifier database whose backing file cannot be read (shelve/dbm errors are OSErrors)"""
+
+    def __getitem__(self, k):
+        raise OSError("identifier database unavailable")
+
+    def __contains__(self, k):
+        raise OSError("identifier database unavailable")
+
+    def get(self, k, default=None):
+        raise OSError("identifier database unavailable")
+
+    def __setitem__(self, k, v):
+        raise OSError("identifier database unavailable")
+
+
+def _call_idp(idp, entry, identity, rargs, pnip, a, authn, kw):
     with S.clock(a["now"]):
         try:
             if entry == "authn_request_response":
@@ -906,8 +1072,15 @@ def run_impl(case):
             else:
                 resp = idp.create_authn_response(identity, rargs["in_response_to"], rargs["destination"], rargs["sp_entity_id"],
                                                  name_id_policy=pnip, userid=a["userid"], authn=authn, **kw)
+            if not isinstance(resp, (str, list)):
+                resp = str(resp)  # what the application sends; an object that cannot be written out is no Response
         except Exception as e:  # whatever leaves create_authn_response: no Response was created
             return {"idp": {"r": "refused", "why": "%s: %s" % (type(e).__name__, str(e)[:60])}, "sp": None}
+    return resp
+
+
+def _observe(case, resp):
+    a, side = case["args"], case.get("sp")
     xml = resp if isinstance(resp, str) else str(resp)
     if isinstance(resp, list):  # the error-response path returns str(response).split("\n")
         xml = "\n".join(resp)
